@@ -4,7 +4,7 @@ import bb, vlib
 
 LISTENER_PROTOS = ["http", "socks5", "socks4", "reverse"]
 UPSTREAMS = ["direct", "uphttp", "upsocks5", "upsocks4"]
-EXTRA_UPSTREAMS = ["upquic", "uptls"]        # second hop over QUIC streams / over a TLS-wrapped HTTP CONNECT
+EXTRA_UPSTREAMS = ["upquic", "uptls", "uphttp6"]   # second hop over QUIC streams / a TLS-wrapped HTTP CONNECT / reached over IPv6
 FX = bb.FIX
 
 
@@ -34,6 +34,7 @@ class Topology:
         ls = []
         self.p2_quic = bb.free_port(socket.SOCK_DGRAM)
         self.p2_https = bb.free_port()
+        self.p2_http6 = bb.free_port(host="::1")
         for proto in LISTENER_PROTOS:
             for up in UPSTREAMS + EXTRA_UPSTREAMS:
                 port = bb.free_port()
@@ -69,7 +70,8 @@ class Topology:
                  {"name": "upsocks5", "type": "socks", "server": "127.0.0.1", "port": self.p2_socks, "version": 5},
                  {"name": "upsocks4", "type": "socks", "server": "127.0.0.1", "port": self.p2_socks, "version": 4},
                  {"name": "upquic", "type": "quic", "server": "localhost", "port": self.p2_quic, "bind": "127.0.0.1:0", "tls": {"ca": FX + "/ca.crt"}},
-                 {"name": "uptls", "type": "http", "server": "localhost", "port": self.p2_https, "tls": {"ca": FX + "/ca.crt"}}]
+                 {"name": "uptls", "type": "http", "server": "localhost", "port": self.p2_https, "tls": {"ca": FX + "/ca.crt"}},
+                 {"name": "uphttp6", "type": "http", "server": "::1", "port": self.p2_http6}]
         rules = list(extra_rules_first or [])
         for up, (typ, port) in self.fake.items():
             conns.append({"name": up, "type": typ, "server": "127.0.0.1", "port": port})
@@ -87,6 +89,7 @@ class Topology:
                                           {"name": "socks", "bind": "127.0.0.1:%d" % self.p2_socks},
                                           {"name": "quic", "type": "quic", "bind": "127.0.0.1:%d" % self.p2_quic,
                                            "tls": {"cert": FX + "/server.crt", "key": FX + "/server.key"}},
+                                          {"name": "http6", "type": "http", "bind": "[::1]:%d" % self.p2_http6},
                                           {"name": "https", "type": "http", "bind": "127.0.0.1:%d" % self.p2_https,
                                            "tls": {"cert": FX + "/server.crt", "key": FX + "/server.key"}}],
                               [{"name": "direct"}], p2rules, splice, buffer, idle, udp, history, None)
@@ -110,7 +113,7 @@ class Topology:
         self.p1.stop()
         self.p2.stop()
 
-    def open(self, proto, up, target, early=b"", timeout=5.0):
+    def open(self, proto, up, target, early=b"", timeout=15.0):
         """client side of a tunnel through listener (proto, up). Returns (Conn, reply)"""
         port = self.ports[(proto, up)]
         if proto == "http":
@@ -160,7 +163,7 @@ def conn_events(trace, cid):
     return out
 
 
-def run_script(topo, proto, up, origin, script, tag, step_wait=0.6):
+def run_script(topo, proto, up, origin, script, tag, step_wait=2.0):
     """execute one GenRelay script on a fresh tunnel; returns dict with scn / obs / client source port / established"""
     target = ("ipv4", "127.0.0.1", origin.port)
     early_n = script[0]["n"] if script and script[0]["op"] == "early" else 0
@@ -174,7 +177,7 @@ def run_script(topo, proto, up, origin, script, tag, step_wait=0.6):
     if not res["established"]:
         c.close()
         return res
-    o = origin.accept(timeout=3.0)
+    o = origin.accept(timeout=10.0)
     if o is None:
         res["origin_missing"] = True
         c.close()
@@ -205,7 +208,7 @@ def run_script(topo, proto, up, origin, script, tag, step_wait=0.6):
     res["abort_seen"] = None
     if "rst" in ending.values():
         survivor = o if ending["c2s"] == "rst" else c
-        t_end = time.time() + 3.0
+        t_end = time.time() + 8.0
         while time.time() < t_end and not (survivor.eof or survivor.err is not None):
             survivor.recv_some(timeout=0.2, want=1 << 30)
         rd = "c2s" if ending["c2s"] == "rst" else "s2c"      # direction whose source aborted
@@ -220,7 +223,7 @@ def run_script(topo, proto, up, origin, script, tag, step_wait=0.6):
             finned[d] = True
     for e in (c, o):
         if not (e is c and ending["c2s"] == "rst") and not (e is o and ending["s2c"] == "rst"):
-            e.recv_until_eof(timeout=2.5)
+            e.recv_until_eof(timeout=10.0)
     got = {"c2s": bytes(o.rx), "s2c": bytes(c.rx)}
     res["scn"] = {"ev": "scn", "sent": {"c2s": off["c2s"], "s2c": off["s2c"]}, "ending": ending, "finned": finned}
     res["obs"] = {"ev": "obs", "recv": {d: len(got[d]) for d in got},
@@ -243,7 +246,7 @@ def bulk_tunnel(topo, proto, up, origin, tag, up_bytes, down_bytes, pause_reader
     if not rec["established"]:
         c.close()
         return rec
-    o = origin.accept(5.0)
+    o = origin.accept(10.0)
     if o is None:
         rec["established"] = False
         c.close()
@@ -320,7 +323,7 @@ def early_reply_tunnel(topo, proto, up, fake, tag, n_up=5000, n_down=7000):
     if not rec["established"]:
         c.close()
         return rec
-    o = fake.accept(5.0)
+    o = fake.accept(10.0)
     if o is None:
         rec["established"] = False
         c.close()
